@@ -23,28 +23,28 @@ type Row struct {
 
 // Group is the row group of one bar in a frame.
 type Group struct {
-	Bar        int
-	From, To   int // rows [From, To)
-	Main       int // index of the main row
-	Cur, Tot   int64
-	Flags      string
+	Bar      int
+	From, To int // rows [From, To)
+	Main     int // index of the main row
+	Cur, Tot int64
+	Flags    string
 }
 
 // Frame is one output Write, parsed.
 type Frame struct {
-	W         *WriteRec
-	Index     int
-	CUU       int // lines the cursor is moved up before drawing (0: no prefix)
-	HasPrefix bool
-	User      []string // user lines (with their tags), in payload order
-	UserEnd   int      // byte offset in the payload (after the prefix) where the bar region starts
-	Rows      []Row
-	Groups    []Group
-	Spy       map[int][]h.SpyRec // spy records of the render cycle that produced this frame
-	Fmt       []h.FmtRec         // probe Format records of that cycle
-	Problems  []string
-	Body      string // payload without prefix
-	TermW, TermH int  // terminal size reported to the cycle (0 if not queried)
+	W            *WriteRec
+	Index        int
+	CUU          int // lines the cursor is moved up before drawing (0: no prefix)
+	HasPrefix    bool
+	User         []string // user lines (with their tags), in payload order
+	UserEnd      int      // byte offset in the payload (after the prefix) where the bar region starts
+	Rows         []Row
+	Groups       []Group
+	Spy          map[int][]h.SpyRec // spy records of the render cycle that produced this frame
+	Fmt          []h.FmtRec         // probe Format records of that cycle
+	Problems     []string
+	Body         string // payload without prefix
+	TermW, TermH int    // terminal size reported to the cycle (0 if not queried)
 }
 
 var (
